@@ -24,6 +24,7 @@ func init() {
 			{ID: "C07.R7", Floor: 2, Doc: "sticky failure: each socket write is guarded by the writer's recorded-failure state, which is set on a write error", Run: c07r7},
 			{ID: "C07.R8", Floor: 1, Doc: "net.Buffers.WriteTo consumes its receiver: it runs on a private copy, the per-request accounting reads the untouched original", Run: c07r8},
 			{ID: "C07.R9", Floor: 1, Doc: "frames handed to the writer are complete: the header length equals the bytes that follow it (=C18.R7)", Run: finishLength},
+			{ID: "C07.R10", Floor: 1, Doc: "exec hands the request's own context to the writer, so a request cancelled while it waits for the write slot never writes", Run: c07r10},
 		},
 	})
 }
@@ -1217,6 +1218,48 @@ func c07r7(p *Program, r *Report) {
 				}
 			}
 		}
+		// the failure state is examined while the serialisation token is held: a test made before waiting for the
+		// token can be out of date by the time the token is granted (the writer before us may just have failed)
+		if guard != "" && assigned {
+			hasAcquire := false
+			sol2 := Solve(g, Lattice[int]{
+				Join: func(a, b int) int {
+					if a < b {
+						return a
+					}
+					return b
+				},
+				Eq: func(a, b int) bool { return a == b },
+				Step: func(st int, step Step) int {
+					switch step.Kind {
+					case StComm:
+						if cc, ok := step.Clause.(*ast.CommClause); ok {
+							if snd, isSend := cc.Comm.(*ast.SendStmt); isSend {
+								if fv := fieldOf(info, snd.Chan); fv != nil && strings.Contains(strings.ToLower(fv.Name()), "sem") {
+									hasAcquire = true
+									return 1
+								}
+							}
+						}
+					case StNode:
+						if snd, isSend := step.Node.(*ast.SendStmt); isSend {
+							if fv := fieldOf(info, snd.Chan); fv != nil && strings.Contains(strings.ToLower(fv.Name()), "sem") {
+								hasAcquire = true
+								return 1
+							}
+						}
+					case StCond:
+						if st == 1 && mentions(exprStr(step.Node.(ast.Expr)), guard) {
+							return 2
+						}
+					}
+					return st
+				},
+			})
+			if stw, ok := sol2.Before(p.stmtOf(s.call, fi)); ok && hasAcquire && stw != 2 {
+				r.Bad(s.call, fi.Name+" examines the failure state while holding the write token", "the recorded failure ("+guard+") is tested before the write token is acquired, not after: a writer that was waiting behind a write that then failed reads a stale nil and writes its frame after the torn one")
+			}
+		}
 		_ = info
 		r.Check(guard != "" && assigned, s.call, fi.Name+" socket write guarded by sticky failure state",
 			"write refused once "+guard+" records an earlier failure",
@@ -1305,4 +1348,36 @@ func singleWriterSend(p *Program, fi *FuncInfo, s *ast.SendStmt) bool {
 		}
 	}
 	return false
+}
+
+// c07r10: the contextWriter honours the context until it starts writing. exec must give it the context of the request
+// (its ctx parameter): with the connection's context a request whose caller gave up while waiting for the write slot
+// still writes its whole frame later.
+func c07r10(p *Program, r *Report) {
+	fi := r.NeedFunc("(*Conn).exec")
+	if fi == nil {
+		return
+	}
+	info := fi.Pkg.TypesInfo
+	ctxParam := paramObj(info, fi.Decl.Type, 0)
+	n := 0
+	for _, u := range p.unitsOf(fi) {
+		uinfo := u.Pkg.TypesInfo
+		for _, c := range callsIn(u.Decl.Body) {
+			if !strings.HasSuffix(calleeName(uinfo, c), ".writeContext") || len(c.Args) != 2 {
+				continue
+			}
+			if rx := recvExpr(c); rx == nil || !p.isField(uinfo, rx, "Conn", "w") {
+				continue
+			}
+			n++
+			rf, re := p.resolveValue(u, c.Args[0], 0)
+			ok := rf == fi && isIdentOf(info, re, ctxParam)
+			r.Check(ok, c, u.Name+" writes the frame under the request's context", "writeContext(ctx, ...) with exec's ctx parameter",
+				"the writer is given "+exprStr(c.Args[0])+" instead of the context of the request: a request cancelled while it waits for the write slot is not withdrawn and its frame is written after the caller has gone")
+		}
+	}
+	if n == 0 {
+		r.Unresolved("exec does not call the connection's contextWriter")
+	}
 }
